@@ -178,12 +178,18 @@ def _thread_oracle(res, ref, pre, out, name):
 def explore_threads(item):
     name, pa, pb, gran, bound, roots = item
     st = core.Stats()
+    observe(pa, "msg1"), observe(pb, "msg1")  # warm-up: lazily built private state, if any
     ref = (observe(pa, "msg1"), observe(pb, "msg1"))
     snap0 = snapshot()
     steps_seen = set()
 
     def body(ch):
         return sched.execute([_mk_body(pa), _mk_body(pb)], ch, gran)
+
+    if isinstance(roots, dict):
+        # residue class of first pre-emption positions, measured in THIS process after warm-up
+        n0 = _steps2(pa, pb, gran)
+        roots = [(0,) * s + (1,) for s in range(roots["part"], n0, roots["parts"])]
 
     for root in roots:
         it = explore(body, bound=bound, root=root)
@@ -264,30 +270,24 @@ def plan_threads(tier):
         # two pre-emptions (line) for the smallest pairs, split by first pre-emption position
         for name, pa, pb in thread_pairs(tier)[:3]:
             for order, (x, y) in (("ab", (pa, pb)), ("ba", (pb, pa))):
-                n0 = _steps(x)
-                for lo in range(0, n0, 8):
-                    roots = [(0,) * s + (1,) for s in range(lo, min(lo + 8, n0))]
-                    work.append((f"{name}/{order}", x, y, "line", 2, roots))
+                for part in range(48):
+                    work.append((f"{name}/{order}", x, y, "line", 2, {"part": part, "parts": 48}))
         # one pre-emption at bytecode granularity
         for name, pa, pb in thread_pairs(tier)[:4]:
             for order, (x, y) in (("ab", (pa, pb)), ("ba", (pb, pa))):
-                n0 = _steps(x, "opcode")
-                for lo in range(0, n0, 150):
-                    roots = [(0,) * s + (1,) for s in range(lo, min(lo + 150, n0))]
-                    work.append((f"{name}/{order}", x, y, "opcode", 1, roots))
+                for part in range(16):
+                    work.append((f"{name}/{order}", x, y, "opcode", 1, {"part": part, "parts": 16}))
     else:
         name, pa, pb = thread_pairs(tier)[0]
-        n0 = _steps(pa, "opcode")
-        for lo in range(0, n0, 100):
-            roots = [(0,) * s + (1,) for s in range(lo, min(lo + 100, n0))]
-            work.append((f"{name}/ab", pa, pb, "opcode", 1, roots))
+        for part in range(16):
+            work.append((f"{name}/ab", pa, pb, "opcode", 1, {"part": part, "parts": 16}))
     return work
 
 
-def _steps(payload, gran="line"):
+def _steps2(pa, pb, gran="line"):
     from mc.explore import Chooser  # pylint: disable=import-outside-toplevel
 
-    _res, steps, _pre = sched.execute([_mk_body(payload), _mk_body(payload)], Chooser(()), gran)
+    _res, steps, _pre = sched.execute([_mk_body(pa), _mk_body(pb)], Chooser(()), gran)
     return steps[0]
 
 
@@ -337,6 +337,13 @@ def run(tier, seed, t0):
                              "shape": shape, "kind": "ok"})
         except (R.BadDefinition, R.TooLong):
             pass
+    fp = bytes((29 * i + 7) & 0xFF for i in range(40))
+    for sub in (73, 201, 10, 138):
+        if sub == 201:
+            continue
+        v, _ = pinned.header(4076, sub, 1)
+        conflict.append({"name": f"unk4076_{sub:03d}", "payload": (v << 1).to_bytes(3, "big") + fp[:11],
+                         "identity": f"4076_{sub:03d}", "shape": None, "kind": "unknown"})
     corp = corp + conflict[21:]
     cases_ = []
     for it in corp:
